@@ -258,7 +258,8 @@ struct celem { long pad; int key; int cnt; struct cstl_rbtree_node rn; struct cs
 static struct celem CE[MAXE];
 static int c_bad, c_calls; static int CK[MAXE], CV[MAXE], c_kcnt[MAXE];
 static int ccmp(const void *a, const void *b, void *p) { (void)p; return (((const struct celem *)a)->key > ((const struct celem *)b)->key) - (((const struct celem *)a)->key < ((const struct celem *)b)->key); }
-static void c_clear(void *e, void *p) { struct celem *c = e; c_calls++; if (p != (void *)&c_bad && p != NULL) c_bad++; if (c < CE || c >= CE + MAXE) { c_bad++; return; } c->cnt++; __asan_poison_memory_region(c, sizeof *c); }
+static int c_has_priv;
+static void c_clear(void *e, void *p) { struct celem *c = e; c_calls++; if (c_has_priv && p != (void *)&c_bad) c_bad++; if (c < CE || c >= CE + MAXE) { c_bad++; return; } c->cnt++; __asan_poison_memory_region(c, sizeof *c); }
 static void c_clear_map(void *it_, void *p) { cstl_map_iterator_t *it = it_; const int *k = it->key; c_calls++; if (p != (void *)&c_bad || k < CK || k >= CK + MAXE || it->val != (void *)&CV[k - CK]) { c_bad++; return; } c_kcnt[k - CK]++; }
 static const char *ckind[] = { "bintree", "rbtree", "heap", "dlist", "slist", "map" };
 static void clear_case(int kind, unsigned n, int ord)
@@ -291,7 +292,7 @@ static void clear_case(int kind, unsigned n, int ord)
             evals++;
             if (ab) { fail("%s: insert #%u aborted", ckind[kind], i); return; }
         }
-        c_bad = c_calls = 0;
+        c_bad = c_calls = 0; c_has_priv = kind <= 1;      /* heap and list clear take no private pointer: what the callback receives there is not specified */
         switch (kind) {
         case 0: SHIM_CALL(ab, cstl_bintree_clear(&C.bt, c_clear, &c_bad)); sz = cstl_bintree_size(&C.bt); break;
         case 1: SHIM_CALL(ab, cstl_rbtree_clear(&C.rb, c_clear, &c_bad)); sz = cstl_rbtree_size(&C.rb); break;
@@ -387,14 +388,16 @@ static void vcons(void *e, void *p) { (void)p; *(unsigned *)e = 0xC0DEu; vx_cons
 static void vdest(void *e, void *p) { (void)p; if (*(unsigned *)e == 0xDEADu) fail("destructor ran twice on the same element"); *(unsigned *)e = 0xDEADu; vx_dest++; }
 static int ucmp(const void *a, const void *b, void *p) { (void)p; return (*(const unsigned *)a > *(const unsigned *)b) - (*(const unsigned *)a < *(const unsigned *)b); }
 /* more elements than an int can count: 2^31 + 5 one-byte elements, never touched (no constructor), each of which must meet
- * the destructor exactly once when the vector is cleared / shrunk.  The allocation goes to the real allocator (2 GiB of address space, not of
+ * the destructor exactly once (in any order) when the vector is cleared / shrunk.  The allocation goes to the real allocator (2 GiB of address space, not of
  * memory); the destructor reports progress to the hang watchdog. */
-static unsigned long hv_calls; static int hv_bad; static const unsigned char *hv_base; static size_t hv_n, hv_next;
+static unsigned long hv_calls, hv_bad; static const unsigned char *hv_base; static size_t hv_n, hv_keep; static unsigned char *hv_bits;
 static void hv_dest(void *e, void *p)
 {
-    /* back to front, as resize does it: the element leaving is always the last one */
-    if ((const unsigned char *)e != hv_base + (hv_next - 1) || p != (void *)&hv_calls) hv_bad++;
-    hv_next--; hv_calls++;
+    /* in whatever order the library tears elements down: each element that leaves, exactly once (one bit per element) */
+    size_t i = (size_t)((const unsigned char *)e - hv_base);
+    if ((const unsigned char *)e < hv_base || i >= hv_n || i < hv_keep || p != (void *)&hv_calls || (hv_bits[i >> 3] & (1u << (i & 7)))) hv_bad++;
+    else hv_bits[i >> 3] |= (unsigned char)(1u << (i & 7));
+    hv_calls++;
     if ((hv_calls & 0xFFFFF) == 0) shim_call_seq++;
 }
 static void hugevec_case(int how)
@@ -406,14 +409,17 @@ static void hugevec_case(int how)
     cstl_vector_reserve(&v, n);
     if (cstl_vector_capacity(&v) < n) { shim_in_lib = save; cases--; return; }      /* the machine cannot provide 2 GiB of address space: nothing to decide */
     cstl_vector_resize(&v, n);
-    hv_base = cstl_vector_data(&v); hv_n = n; hv_next = n; hv_calls = 0; hv_bad = 0;
+    hv_base = cstl_vector_data(&v); hv_n = n; hv_keep = keep; hv_calls = 0; hv_bad = 0;
+    hv_bits = __real_calloc(n / 8 + 1, 1);
+    if (hv_bits == NULL) { cstl_vector_clear(&v); shim_in_lib = save; cases--; return; }
     CHECK(cstl_vector_size(&v) == n, "resize(2^31+5) left size %zu", cstl_vector_size(&v));
     if (how) cstl_vector_resize(&v, keep); else cstl_vector_clear(&v);
     evals += 2;
-    CHECK(hv_calls == n - keep && hv_bad == 0, "%s of a vector of 2^31+5 elements ran the destructor %lu times (%d of them on the wrong element or with a wrong private pointer), %zu elements left the vector",
+    CHECK(hv_calls == n - keep && hv_bad == 0, "%s of a vector of 2^31+5 elements ran the destructor %lu times (%lu of them on an element that stays, a second time on the same element, or with a wrong private pointer), %zu elements left the vector",
           how ? "resize(3)" : "clear", hv_calls, hv_bad, n - keep);
     CHECK(cstl_vector_size(&v) == keep, "size %zu afterwards", cstl_vector_size(&v));
     cstl_vector_clear(&v);
+    __real_free(hv_bits); hv_bits = NULL;
     shim_in_lib = save;
 }
 static void vector_case(size_t es, int xt, int pattern)
